@@ -48,6 +48,7 @@ KNOWN = [
 
 # subject prefix (after 'fix: ') -> (properties, rule, what failed)
 FIXED = [
+    ("minimum distance between overlapping solids was positive when a non-convex one encloses the other", ["C04"], "C04.distance", "`distance from A to B` for an object B lying strictly inside a non-convex object A (no surface contact) was positive (the gap between the two surfaces) although the solids overlap: FCL's distance query on non-convex meshes measures surfaces (F60; found by reading the property's distance clause against MeshVolumeRegion.minimumDistanceTo)"),
     ("a precondition violation at the start of the top-level scenario left it marked as running", ["C14"], "C14.started", "after one simulation ended with a violated precondition of the top-level scenario (checked in DynamicScenario._start), every later simulation of the same compiled scenario failed `assert not self._isRunning`: the scenario was marked as running but not yet registered for cleanup (F59; noticed by an independent agent while seeding changes)"),
     ("re-check invariants inside try-interrupt with the agent, not None", ["C13"], "C13.invariants", "an invariant mentioning `self` raised AttributeError ('NoneType' object has no attribute ...) as soon as its behaviour took a step inside a try-interrupt statement: runTryInterrupt re-checked the invariants with None in place of the agent (F58; noticed by an independent agent while seeding changes)"),
     ("pruning bounds were inferred from soft requirements, termination conditions and records", ["C08"], "C08.sources", "`require[0.5] C`, `terminate when C`, `terminate simulation when C` and `record C` gave the objects distance / relative-heading relations as if C held in every scene, so pruning removed scenes the program allows (F57; noticed by an independent agent while seeding changes)"),
